@@ -53,4 +53,60 @@ theorem cli_requested_is_reported (a : CompressArgs) (p : CompressParsed) (h : p
   · rw [hn]; exact compressionFromDict_none
   · rw [hl]; exact compressionFromDict_brotli l
 
+theorem Parsed.bind_ok {α β : Type} (p : Parsed α) (f : α → Parsed β) (b : β) (h : p.bind f = .ok b) :
+    ∃ a, p = .ok a ∧ f a = .ok b := by
+  cases p with
+  | ok a => exact ⟨a, rfl, h⟩
+  | refused => cases h
+  | panic => cases h
+
+/-- What an accepted `bita clone` command line hands on: the output, the three flags and the archive
+exactly as given; the seed files are the `--seed` values other than `-`, in the order given, and stdin
+is a seed iff `-` is among them; a `--verify-header` text that is given becomes a pin (never "no pin"). -/
+theorem parseClone_ok (a : CloneArgs) (p : CloneParsed) (h : parseClone a = .ok p) :
+    p.cmd.output = a.output ∧ p.cmd.archivePath = a.archive ∧
+    p.cmd.flags = ⟨a.force, a.seedOutput, a.verifyOutput⟩ ∧
+    p.cmd.seedPaths = a.seeds.filter (· ≠ "-") ∧ p.seedStdin = a.seeds.contains "-" ∧
+    (a.verifyHeader = none → p.cmd.pin = none) ∧
+    (∀ t, a.verifyHeader = some t → ∃ v, p.cmd.pin = some v ∧ parseHashSum t = .ok v) ∧
+    p.retries < 2 ^ 32 := by
+  unfold parseClone at h
+  obtain ⟨pin, hpin, h⟩ := Parsed.bind_ok _ _ _ h
+  obtain ⟨_, _, h⟩ := Parsed.bind_ok _ _ _ h
+  obtain ⟨retries, hret, h⟩ := Parsed.bind_ok _ _ _ h
+  obtain ⟨delay, _, h⟩ := Parsed.bind_ok _ _ _ h
+  obtain ⟨timeout, _, h⟩ := Parsed.bind_ok _ _ _ h
+  obtain ⟨buffers, _, h⟩ := Parsed.bind_ok _ _ _ h
+  have hr : retries < 2 ^ 32 := by
+    cases hrc : a.retryCount with
+    | none => rw [hrc] at hret; cases hret; decide
+    | some t =>
+      rw [hrc] at hret
+      simp only [rangedU32] at hret
+      split at hret
+      · cases hret
+      · split at hret
+        · split at hret
+          · cases hret; omega
+          · cases hret
+        · cases hret
+  have hpin' : (a.verifyHeader = none → pin = none) ∧
+      (∀ t, a.verifyHeader = some t → ∃ v, pin = some v ∧ parseHashSum t = .ok v) := by
+    cases hv : a.verifyHeader with
+    | none => rw [hv] at hpin; cases hpin; exact ⟨fun _ => rfl, fun t ht => by cases ht⟩
+    | some t =>
+      rw [hv] at hpin
+      obtain ⟨v, hv1, hv2⟩ := Parsed.bind_ok _ _ _ hpin
+      cases hv2
+      refine ⟨fun hn => (by cases hn), fun t' ht' => ?_⟩
+      cases ht'
+      refine ⟨v, rfl, ?_⟩
+      unfold pinValue at hv1
+      split at hv1
+      · cases hv1
+      · exact hv1
+  cases hk : a.archiveKind <;> rw [hk] at h <;> simp only at h <;> first
+    | (cases h; exact ⟨rfl, rfl, rfl, rfl, rfl, hpin'.1, hpin'.2, hr⟩)
+    | (cases h)
+
 end Bita.Proofs
